@@ -197,6 +197,7 @@ func main() {
 	genHpack()
 	genFrame()
 	genH2Resp()
+	genSched()
 	facts["issues"] = issues
 	keys := make([]string, 0, len(facts))
 	for k := range facts {
